@@ -6,7 +6,7 @@ and with the spec; the compatibility section alone is fed to the library's pre-p
 """
 from mc.build import ti as B
 from mc.core import explorer
-from mc.core.util import diff
+from mc.core.util import diff, exc_name
 from mc.models import ini
 
 ID = "C17"
@@ -71,7 +71,7 @@ def eval_case(case):
         obj = B.build(spec, _owner=owner)
         text = B.dumps(obj, main_variant=spec["main_variant"])
     except (ValueError, TypeError) as exc:
-        return {"status": "refused", "problems": ["%s" % type(exc).__name__]}
+        return {"status": "refused", "problems": ["%s" % exc_name(exc)]}
     problems = []
     if spec["main_variant"] is not None:
         # a later dump of the same object that requests no main variant must fall back to the default again
@@ -139,7 +139,7 @@ def eval_case(case):
             if dl:
                 problems.append("a pre-productmd reader given only [general] sees a different tree: " + "; ".join(dl))
         except Exception as exc:                                         # noqa
-            problems.append("a pre-productmd reader cannot read the compatibility section: %s" % type(exc).__name__)
+            problems.append("a pre-productmd reader cannot read the compatibility section: %s" % exc_name(exc))
             legacy = "failed"
     return {"status": "bad" if problems else "ok", "problems": problems, "legacy_checked": legacy is not None}
 
